@@ -32,7 +32,7 @@ OCTX = ("2001:db8::b", 40000)    # bystander context
 OSRV = ("2001:db8::2", 5683)     # bystander's server
 
 SCENARIOS = ("await-ack", "await-separate", "bw-up", "bw-down", "obs-client", "obs-server", "backlog", "slow-handler", "slow-twice", "dedup-alive",
-             "obs-client-bw", "obs-client-late", "obs-client-late-plain", "obs-client-iter-gone", "obs-server-lateack", "bystander-server")
+             "obs-client-bw", "obs-client-late", "obs-client-late-plain", "obs-client-iter-gone", "obs-server-lateack", "bystander-server", "victim-serves-bystander")
 BSRV = ("2001:db8::b5", 5683)     # a second bystander: a *server* context with a handler running and an observer registered
 BPEER = ("2001:db8::b6", 40000)
 STALLS = [(j, dt) for j in (1, 2, 3, 4, 6) for dt in (0.15, 3.5)]   # the loop stalls for dt seconds after the j-th iteration of the shutdown
@@ -114,7 +114,7 @@ class ShutScenario(NetScenario):
         st.sent_at_return = None
         # --- the victim
         site = None
-        if kind in ("obs-server", "slow-handler", "slow-twice", "dedup-alive", "obs-server-lateack"):
+        if kind in ("obs-server", "slow-handler", "slow-twice", "dedup-alive", "obs-server-lateack", "victim-serves-bystander"):
             site = resource.Site()
 
             class Slow(resource.Resource):
@@ -196,6 +196,11 @@ class ShutScenario(NetScenario):
             return m
 
         def start(st):
+            st.o_to_v = None
+            if kind == "victim-serves-bystander":
+                # the bystander is a client of the victim as well: that exchange comes first in its books, the one with its own
+                # server second; when the victim has gone the bystander is told so (ICMP), which concerns the first exchange only
+                st.o_to_v = st.o.ctx.request(req(st.o, V, code=GET, uri_path=["slow"]), handle_blockwise=False).response
             st.ofut = st.o.ctx.request(req(st.o, OSRV, code=GET, uri_path=["by"]), handle_blockwise=False).response
             if kind == "bystander-server":
                 st.world.emit(BPEER, BSRV, rc.encode((rc.CON, 1, 0x6001, b"\x21", [(11, b"slow")], b"")))
@@ -395,6 +400,13 @@ class ShutScenario(NetScenario):
         if still > 0:
             st.violations.append(Violation("handler-not-cancelled", "every running handler has ended or seen CancelledError when shutdown returns",
                                            st.handler_log, "tokenmanager.py:shutdown", {}, key="handler"))
+        if st.o_to_v is not None and not st.o_to_v.done():
+            import errno
+            st.o.receive_error(V, errno.ECONNREFUSED)
+            w.loop.settle()
+            if not (st.o_to_v.done() and isinstance(st.o_to_v.exception(), error.Error)):
+                st.violations.append(Violation("bystander-affected", "the bystander's request to the vanished context fails with a library error",
+                                               repr(st.o_to_v), "messagemanager.py:dispatch_error", {}, key="bystander-to-victim"))
         if st.b is not None:
             st.b_sent_at_return = len([d for d in w.sent if d.src == BSRV])
             st.b_expect_note = st.b_observers[0] > 0     # (its observer's registration may have been lost or not have arrived yet)
